@@ -62,16 +62,17 @@ def _mdib_xml():
 _XML = []
 
 
-def mk_world():
+def mk_world(validate=True):
     """-> (provider, consumer, consumer mdib): started, subscribed, initial GetMdib loaded - all through the loop-back wire."""
     if not _XML:
         _XML.append(_mdib_xml())
     lk.Net.reset()
     comp = providerimpl.provider_components_sync_factory()
     comp.soap_client_class = lk.ProviderSoapClient
-    dev = mockstuff.SomeDevice(mockstuff.MockWsDiscovery(lk.IP), _XML[0], validate=True, components=comp, role_provider_components=None)
+    dev = mockstuff.SomeDevice(mockstuff.MockWsDiscovery(lk.IP), _XML[0], validate=validate, components=comp,
+                               role_provider_components=None)
     lk.start_provider(dev)
-    cons = lk.mk_consumer(dev.get_xaddrs()[0])
+    cons = lk.mk_consumer(dev.get_xaddrs()[0], validate=validate)
     lk.start_consumer(cons)
     cm = ConsumerMdib(cons)
     cm.init_mdib()
@@ -164,3 +165,60 @@ def wire_two_kinds(c1: int, c2: int, vsel: int, flag: bool, sel: int) -> str:
     val, flag, sel = pick(vsel, VALS), bool(flag), pick(sel, (0, 1, 2, 3))
     with untraced():
         return _run([k1, k2], val, flag, sel)
+
+
+# ------------------------------------------------------------------------------------------------ C04: what is on the wire validates
+
+_VALIDATOR = []
+
+
+def _invalid(xml):
+    """None, or the reason why this message does not validate against the bundled schemas (independent validating reader)."""
+    if not _VALIDATOR:
+        import logging
+        from sdc11073.definitions_sdc import SdcV1Definitions
+        from sdc11073.pysoap.msgreader import MessageReader
+        _VALIDATOR.append(MessageReader(SdcV1Definitions, None, logging.getLogger('verif'), validate=True))
+    try:
+        _VALIDATOR[0].read_received_message(xml, validate=True)
+    except Exception as ex:  # noqa: BLE001
+        return type(ex).__name__
+    return None
+
+
+def wire_messages_validate(c1: int, vsel: int, flag: bool, sel: int) -> str:
+    """
+    Provider and consumer run WITHOUT their own schema validation (so that nothing invalid is held back); start-up (GetMdib,
+    Subscribe ...), one transaction of kind TX_CODES[c1], renew / status, unsubscribe. Every SOAP message either side put on the
+    wire - requests, responses, notifications - is validated here by an independent validating reader.
+    pre: 0 <= c1 < 19
+    pre: 0 <= vsel < 3
+    pre: 0 <= sel < 4
+    post: __return__ == 'ok'
+    """
+    code, val, flag, sel = pick(c1, M.TX_CODES), pick(vsel, VALS), bool(flag), pick(sel, (0, 1, 2, 3))
+    with untraced():
+        orc = Oracle()
+        try:
+            with k.real_xml():
+                dev, cons, cm = mk_world(validate=False)
+                M._tx(dev.mdib, code, val, flag, sel, '1')
+                for s in list(cons.subscription_mgr.subscriptions.values()):
+                    s.renew(30)
+                    s.get_status()
+                cons.stop_all(unsubscribe=True)
+                dev.stop_all(send_subscription_end=False)
+            n = 0
+            for m in lk.Net.messages:
+                if not m['xml'] or m['kind'] == 'get-response':
+                    continue
+                n += 1
+                why = _invalid(m['xml'])
+                if why is not None:
+                    action = lk.re.search(rb'Action[^>]*>([^<]*)<', m['xml'])
+                    orc.fail(f"message-on-wire-invalid:{m['sender']}:{m['kind']}:" + (action.group(1).decode().rsplit('/', 1)[-1] if action else '?'))
+            orc.check(n >= 8, 'harness:too-few-messages-recorded')
+            M._compare(dev.mdib, cm, orc, 'unvalidated-wire')
+        except Exception as ex:  # noqa: BLE001
+            return exc_result(orc, ex, 'wire')
+        return orc.result()
